@@ -10,7 +10,18 @@ Open Scope Z_scope.
 Record target := mkTarget { t_unit : option str; t_label : option str; t_shape : list Z; t_cells : list Z }.
 Record rdim := mkR { r_ticks : option (list Z); r_unit : option str; r_label : option str; r_link : option (list Z) }.
 Record sdim := mkS { s_labels : option (list Z); s_link : option (list Z) }.
-Record dstate := mkDS { tg : target; rd : rdim; sd : sdim }.
+(* descriptors appended later (DataArray.append_*_dimension) *)
+Inductive xdim :=
+| XRange (ticks : option (list Z)) (unit label : option str)
+| XSampled (interval : Z) (unit label : option str) (offset : option Z)
+| XSet (labels : option (list Z)).
+Record dstate := mkDS { tg : target; rd : rdim; sd : sdim; extra : list xdim }.
+(* arguments as a caller can pass them: a proper value, nothing, or something of the wrong type *)
+Inductive targ := TkOk (l : list Z) | TkNone | TkBad.
+Inductive sarg := StOk (s : str) | StNone | StBad.
+Inductive narg := NmOk (z : Z) | NmNone | NmBad.
+Definition sarg_val (a : sarg) : option str := match a with StOk s => Some s | _ => None end.
+Definition sarg_bad (a : sarg) : bool := match a with StBad => true | _ => false end.
 
 Inductive derr := EIncompat | EValue | ERuntime | EIndex.
 
@@ -44,7 +55,10 @@ Fixpoint descends (l : list Z) : bool :=
 Inductive dop :=
 | RSetTicks (l : list Z) | RLink (idx : list Z) | RUnlink | RSetUnit (u : str) | RSetLabel (u : str)
 | SSetLabels (l : list Z) | SLink (idx : list Z) | SUnlink
-| TSetUnit (u : option str) | TSetLabel (u : option str) | TSetCell (i : nat) (v : Z).
+| TSetUnit (u : option str) | TSetLabel (u : option str) | TSetCell (i : nat) (v : Z)
+| AppendRange (t : targ) (label unit : sarg)
+| AppendSampled (itv : narg) (label unit : sarg) (offset : narg)
+| AppendSet (l : targ).
 
 Definition set_nthZ (l : list Z) (i : nat) (v : Z) : list Z :=
   firstn i l ++ match skipn i l with [] => [] | _ :: r => v :: r end.
@@ -54,39 +68,65 @@ Definition dstep (s : dstate) (o : dop) : dstate * option derr :=
   match o with
   | RSetTicks l =>
       if descends l then (s, Some EValue)
-      else (mkDS t (mkR (Some l) (r_unit r) (r_label r) None) d, None)
+      else (mkDS t (mkR (Some l) (r_unit r) (r_label r) None) d (extra s), None)
   | RLink idx =>
       match link_check t idx with
       | Some e => (s, Some e)
-      | None => (mkDS t (mkR None (r_unit r) (r_label r) (Some idx)) d, None)
+      | None => (mkDS t (mkR None (r_unit r) (r_label r) (Some idx)) d (extra s), None)
       end
   | RUnlink => match r_link r with
                | None => (s, Some ERuntime)
-               | Some _ => (mkDS t (mkR (r_ticks r) (r_unit r) (r_label r) None) d, None)
+               | Some _ => (mkDS t (mkR (r_ticks r) (r_unit r) (r_label r) None) d (extra s), None)
                end
   | RSetUnit u => match r_link r with
-                  | Some _ => (mkDS (mkTarget (Some u) (t_label t) (t_shape t) (t_cells t)) r d, None)
-                  | None => (mkDS t (mkR (r_ticks r) (Some u) (r_label r) None) d, None)
+                  | Some _ => (mkDS (mkTarget (Some u) (t_label t) (t_shape t) (t_cells t)) r d (extra s), None)
+                  | None => (mkDS t (mkR (r_ticks r) (Some u) (r_label r) None) d (extra s), None)
                   end
   | RSetLabel u => match r_link r with
-                   | Some _ => (mkDS (mkTarget (t_unit t) (Some u) (t_shape t) (t_cells t)) r d, None)
-                   | None => (mkDS t (mkR (r_ticks r) (r_unit r) (Some u) None) d, None)
+                   | Some _ => (mkDS (mkTarget (t_unit t) (Some u) (t_shape t) (t_cells t)) r d (extra s), None)
+                   | None => (mkDS t (mkR (r_ticks r) (r_unit r) (Some u) None) d (extra s), None)
                    end
   | SSetLabels l => match s_link d with
                     | Some _ => (s, Some ERuntime)
-                    | None => (mkDS t r (mkS (Some l) None), None)
+                    | None => (mkDS t r (mkS (Some l) None) (extra s), None)
                     end
   | SLink idx => match link_check t idx with
                  | Some e => (s, Some e)
-                 | None => (mkDS t r (mkS (s_labels d) (Some idx)), None)
+                 | None => (mkDS t r (mkS (s_labels d) (Some idx)) (extra s), None)
                  end
   | SUnlink => match s_link d with
                | None => (s, Some ERuntime)
-               | Some _ => (mkDS t r (mkS (s_labels d) None), None)
+               | Some _ => (mkDS t r (mkS (s_labels d) None) (extra s), None)
                end
-  | TSetUnit u => (mkDS (mkTarget u (t_label t) (t_shape t) (t_cells t)) r d, None)
-  | TSetLabel u => (mkDS (mkTarget (t_unit t) u (t_shape t) (t_cells t)) r d, None)
-  | TSetCell i v => (mkDS (mkTarget (t_unit t) (t_label t) (t_shape t) (set_nthZ (t_cells t) i v)) r d, None)
+  (* append_*_dimension: the descriptor is made, then filled; whatever is refused on the way (a label or
+     unit that is not text, ticks that are not numbers or descend, an interval or offset that is not a
+     number, labels that are not text) leaves no descriptor behind *)
+  | AppendRange tk lb un =>
+      if sarg_bad lb || sarg_bad un then (s, Some EValue)
+      else match tk with
+           | TkBad => (s, Some EValue)
+           | TkOk l => if descends l then (s, Some EValue)
+                       else (mkDS t r d (extra s ++ [XRange (Some l) (sarg_val un) (sarg_val lb)]), None)
+           | TkNone => (mkDS t r d (extra s ++ [XRange None (sarg_val un) (sarg_val lb)]), None)
+           end
+  | AppendSampled iv lb un off =>
+      match iv with
+      | NmOk z =>
+          if sarg_bad lb || sarg_bad un || match off with NmBad => true | _ => false end then (s, Some EValue)
+          else (mkDS t r d (extra s ++ [XSampled z (match un with StOk [] => None | x => sarg_val x end)
+                                                  (match lb with StOk [] => None | x => sarg_val x end)
+                                                  (match off with NmOk 0 => None | NmOk o => Some o | _ => None end)]), None)
+      | _ => (s, Some EValue)
+      end
+  | AppendSet l =>
+      match l with
+      | TkBad => (s, Some EValue)
+      | TkOk x => (mkDS t r d (extra s ++ [XSet (Some x)]), None)
+      | TkNone => (mkDS t r d (extra s ++ [XSet None]), None)
+      end
+  | TSetUnit u => (mkDS (mkTarget u (t_label t) (t_shape t) (t_cells t)) r d (extra s), None)
+  | TSetLabel u => (mkDS (mkTarget (t_unit t) u (t_shape t) (t_cells t)) r d (extra s), None)
+  | TSetCell i v => (mkDS (mkTarget (t_unit t) (t_label t) (t_shape t) (set_nthZ (t_cells t) i v)) r d (extra s), None)
   end.
 
 (* what the dimension reports *)
